@@ -5,3 +5,5 @@ INVARIANT RecordedOnce
 INVARIANT ObserveOnly
 INVARIANT EnabledRestored
 INVARIANT StillRecording
+INVARIANT EvaluationRecorded
+INVARIANT NothingRecordedIfOpRaises
